@@ -125,7 +125,16 @@ def invFail (s : IState) : Option String :=
     ("replOnly", s.repl.all fun r => hasIdB s.fin r || (match c with
         | some k => (match (I k).pc with | .clearCode t => t.id == r | _ => false)
         | none => false)),
-    ("lostNone", s.lost.isEmpty)]
+    ("lostNone", s.lost.isEmpty),
+    -- clauses added for inductiveness (see Inv.lean)
+    ("pcWf", allLt s.ninst fun k => (I k).pc.wf),
+    ("execdHeld", s.execd.all fun r => hasIdB s.fin r || hasIdB (heldL s) r),
+    ("lastInvNotLate", match s.lastInv with
+        | some (_, r, _) => s.late.all fun p => p.id != r
+        | none => true),
+    ("replClear", match c with
+        | some k => (match (I k).pc with | .clearCode t => s.repl.contains t.id | _ => true)
+        | none => true)]
   clauses.findSome? fun (n, b) => chk n b
 
 end Ari.Conc
